@@ -220,7 +220,7 @@ class MGen(object):
     def family(self):
         rng = self.rng
         v, w = rng.sample(self.names, 2) if len(self.names) >= 2 else (self.names[0], self.names[0])
-        kind = rng.choice(['nonlocal', 'nonlocal', 'params', 'classinfunc', 'global', 'comp'])
+        kind = rng.choice(['nonlocal', 'nonlocal', 'params', 'classinfunc', 'global', 'comp', 'decofirst'])
         body = []
         if rng.random() < 0.5:
             body.append(self._assign(v))
@@ -296,6 +296,20 @@ class MGen(object):
                 b1.insert(0, self._read(v))
                 body = [self._assign(v)]
             body += [self._def('f1', [], b1, gl=[v]), self._call('f1'), self._read(v)]
+        elif kind == 'decofirst':
+            # a block whose FIRST statement is a decorated definition reading the name the block header has just bound
+            inner = self._def('f2', [], [self._read(v)], decos=[[v, self.rid()]])
+            if rng.random() < 0.4:
+                self.nk += 1
+                inner = {'k': 'class', 'name': 'K%d' % self.nk, 'site': self.site(), 'bases': [], 'kw': [], 'decos': [[v, self.rid()]], 'body': [self._read(v)]}
+            where = rng.choice(['for', 'param', 'forinfunc'])
+            if where == 'for':
+                body += [{'k': 'for', 'name': self.bound(v), 'site': self.site(), 'iter': [], 'body': [inner, self._read(v)]}]
+            elif where == 'param':
+                body += [self._def('f1', [self._param(rng.choice(['pos', 'kwonly', 'posonly', 'var']), v)], [inner, self._read(v)]), self._call('f1')]
+            else:
+                loop = {'k': 'for', 'name': self.bound(v), 'site': self.site(), 'iter': [], 'body': [inner, self._read(v)]}
+                body += [self._def('f1', [], [loop]), self._call('f1')]
         else:
             comp = {'k': 'comp', 'form': rng.choice(['list', 'set', 'dict', 'gen']), 'name': v, 'site': self.site(),
                     'iter': [[v, self.rid()]], 'cond': [[w, self.rid()]] if rng.random() < 0.5 else [], 'elt': [[v, self.rid()], [w, self.rid()]]}
